@@ -74,3 +74,30 @@ def str_of_int(self, ex, sv):
 
 World.int_of_str = int_of_str
 World.str_of_int = str_of_int
+
+
+def str_split(self, ex, s, sep):
+    """s.split(c) for a one-character c, on paths where c occurs at most once
+    (two forks); more occurrences are outside the subset."""
+    cnt = str_count(self, ex, s, sep)
+    if ex.spec_mode:
+        raise OutOfSubset("str.split inside a spec function")
+    if ex.p.fork(cnt == 0):
+        return ex.new_list([SV(s.z, STR)])
+    if not ex.p.fork(cnt == 1):
+        raise OutOfSubset("str.split with more than one separator on this path")
+    i = z3.IndexOf(s.z, sep.z, 0)
+    n = z3.Length(s.z)
+    ex.p.assume(z3.And(i >= 0, i < n))
+    note_nonneg(i >= 0)
+    # the same terms a contract clause gets from s[:s.find(c)] and s[s.find(c)+1:]
+    a = seq_slice(s, None, i).z
+    b = seq_slice(s, i + 1, None).z
+    f = _cnt_fn(self)
+    # facts about the first occurrence (true of every string): nothing before it, exactly cnt-1 after it
+    ex.p.assume(z3.And(i >= 0, i < n, z3.Not(z3.Contains(a, sep.z)), f(a, sep.z) == 0, f(b, sep.z) == cnt - 1, z3.Not(z3.Contains(b, sep.z))))
+    self.used_assumption("str.split(c) with exactly one occurrence of c: [s[:i], s[i+1:]] with i = s.find(c), and c occurs in neither part")
+    return ex.new_list([SV(a, STR), SV(b, STR)])
+
+
+World.str_split = str_split
